@@ -40,6 +40,7 @@ func runC09(c *core.Ctx) {
 	c.Rule("C09.close", "A6: Topic.removeHandler, Topic.close, Topics.Close, Topics.DeleteTopic end handlers with bufHandler.Close (drain); bufHandler.Abort is not reachable from them")
 	c.Rule("C09.buffer", "A2: newHandler starts exactly one goroutine running run(); bufHandler.Handle only enqueues on events without blocking; run() delivers every received event to the wrapped handler and returns on the closed channel only")
 	c.Rule("C09.locks", "A5: Topic.{events,sorted,handlers} are accessed only under Topic.mu and Topics.topics only under Topics.mu")
+	c.Rule("C09.lockflow", "A5 (must-hold lock set over go/cfg): every use of Topic.{events,sorted,handlers} and Topics.topics happens with the owner's mu held on all paths reaching it (an Unlock before the use counts; unexported methods without lock operations are helpers whose call sites carry the obligation; constructors are checked as helpers that nobody calls with a published object)")
 
 	pkg := c.P.Pkg("alert")
 	if pkg == nil {
@@ -61,6 +62,11 @@ func runC09(c *core.Ctx) {
 		requires: map[string]bool{}, exempt: map[string]string{"newTopic": "constructor"}})
 	ruleGuardedBy(c, "C09.locks", pkg, guardSpec{typ: "Topics", mu: "mu", fields: map[string]bool{"topics": true},
 		requires: map[string]bool{"ensureTopic": true}, exempt: map[string]string{"NewTopics": "constructor"}})
+	n := ruleMustHold(c, "C09.lockflow", pkg, holdSpec{Typ: "Topic", Mu: "mu", Fields: map[string]bool{"events": true, "sorted": true, "handlers": true},
+		Why: "the topic's event table, its sorted view and its handler list are read by Collect/MaxLevel/EventStates while handlers are registered and events updated from other goroutines: an access outside the lock sees a half-updated table or races with a write (concurrent map access ends the process)"})
+	n += ruleMustHold(c, "C09.lockflow", pkg, holdSpec{Typ: "Topics", Mu: "mu", Fields: map[string]bool{"topics": true},
+		Why: "the topic map is written by Collect/RegisterHandler/DeleteTopic from several tasks' goroutines"})
+	c.Floor("C09.lockflow", "selections of guarded Topic/Topics fields", n, 20)
 }
 
 type cmpKey struct {
@@ -456,6 +462,9 @@ func c09Fanout(c *core.Ctx, pkg *packages.Package) {
 		})
 	}
 	if sp := c.P.Pkg("services/alert"); sp != nil {
+		n := ruleMustHold(c, "C09.lockflow", sp, holdSpec{Typ: "Service", Mu: "mu", Fields: map[string]bool{"handlers": true, "closedTopics": true},
+			Why: "the service's handler table and closed-topic marks are written by the handler API and by task stop while Collect reads them from every task's goroutine"})
+		c.Floor("C09.lockflow", "selections of guarded alert Service fields", n, 15)
 		if fn := c.Need("C09.fanout", "services/alert", "publishHandler", "Handle"); fn != nil {
 			ev := an.ParamName(fn.Decl.Type, 0)
 			c09LoopNoExit(c, "C09.fanout", "publishHandler.Handle", fn, sp.TypesInfo, ".Topics", "Collect", func(rs *ast.RangeStmt, call *ast.CallExpr) string {
